@@ -9,6 +9,15 @@ CHECKS = {
  'C02': dict(cat='exploration', tech='bounded exhaustive enumeration of operator x type programs and operand values; emitted IL executed on an IL machine model and compared with a C11 reference evaluator (itself checked against gcc and clang)',
              text='Every operator x operand-type combination at depth 1 and the depth-2 compositions of the tier are compiled by the real compiler (each from a fresh forked state) and the emitted effect is executed by ILVM on the complete cross product of the operand domains (8-bit operands exhaustively, wider ones on boundary sets, shift counts 0..65); the observed int64_t result must equal the strict C reference. Disagreements are attributed to a known finding only if the IL equals the reference under exactly that deviation rule on every state.',
              note='Trusted: ILVM semantics of the RzIL core operators (DESIGN.md 3/E2; Rizin itself is not in the sandbox) and the reference evaluator vf/ceval.py, which the same run cross-validates against gcc -O0 -fwrapv and clang on every non-UB state. Wide operands are covered on boundary values only.', ref='4 C02'),
+ 'C10': dict(cat='exploration', tech='exhaustive enumeration of generated programs and the whole corpus; every emitted text sort-checked on all paths by an independent checker mirroring rz_il_validate',
+             text='Every text the compiler emits for all accepted corpus parts and the bundled sub-routines in both layouts, and for a generated program space (operator/type space of C02, all assignment operators x type pairs, comparison/logical results mixed with arithmetic, re-use, folding, control flow) in both layouts, is parsed by an independent reader and sort-checked statically on every BRANCH/ITE arm and loop body (not only the path a state would take), including the single-width rule for locals against the widths declared in the C source.',
+             note='Trusted: the sort rules in vf/il.py (written from the RzIL core theory; rz_il_validate itself is not in the sandbox) and the independent table of plugin macro signatures.', ref='4 C10'),
+ 'C11': dict(cat='exploration', tech='exhaustive enumeration of emitted texts checked by an independent C-level reader (declaration grammar, declared-before-use, identifiers), plus companion-record checks over all 2253 corpus part names',
+             text='Same text space as C10. Each text must consist of declarations with initialiser plus the final return, every identifier declared exactly once before use (or parameter / plugin constant), balanced parentheses, valid C names; needs_hi/needs_pkt are compared with an independent token scan of the text, getter names/declarations with the naming rule, and getter-name uniqueness is decided over all corpus names.',
+             note='Trusted: the small recursive-descent reader in vf/il.py; the assumption that the plugin template provides bundle/hi/pkt to instruction bodies exactly when the flags say so.', ref='4 C11'),
+ 'C12': dict(cat='exploration', tech='exhaustive enumeration of emitted texts with an independent use-counting linearity checker',
+             text='Same text space as C10 with the re-use generator (same operand 1..5 times over 1..3 statements, folded-away operands, conditionally emitted statements). Per declared pure: exactly one raw (consuming) occurrence, all others under DUP; per effect: exactly one occurrence; borrowed parameters at most one raw use; nothing initialised is left unused.',
+             note='Trusted: the occurrence counter in vf/il.py; the ownership convention (raw use consumes, DUP copies) as stated in the property.', ref='4 C12'),
 }
 NA = {}
 ALL = ['C%02d' % i for i in range(1, 21)]
